@@ -239,3 +239,31 @@ fn u7_tables_exact() {
     }
     assert!(PICKLE_OPCODES.get(&6u8).is_none());
 }
+
+// ---- C12 helpers: in fuzzer-bytes mode every alternative can be selected ----------------------------
+/// choose_index(n) is onto [0, n): for every n <= 65536 and every t < n there is an input (written
+/// out here) that selects t -- so no candidate opcode is unreachable by the uniform choice.
+#[kani::proof]
+#[kani::unwind(10)]
+fn u9_arb_choose_index_onto() {
+    let n: usize = kani::any();
+    kani::assume(n >= 1 && n <= 65536);
+    let t: usize = kani::any();
+    kani::assume(t < n);
+    let two = [(t >> 8) as u8, (t & 0xff) as u8];
+    let one = [t as u8];
+    let mut u = if n - 1 >= 256 { Unstructured::new(&two) } else { Unstructured::new(&one) };
+    let mut src = GenerationSource::Arbitrary(&mut u);
+    assert!(src.choose_index(n) == t, "[C12] an alternative cannot be selected by any fuzzer input");
+}
+/// gen_bool takes both values (framed and unframed pickles for protocol >= 4)
+#[kani::proof]
+#[kani::unwind(10)]
+fn u9_arb_gen_bool_both() {
+    let (d0, d1) = ([0u8], [1u8]);
+    let mut u0 = Unstructured::new(&d0);
+    let mut u1 = Unstructured::new(&d1);
+    let b0 = GenerationSource::Arbitrary(&mut u0).gen_bool();
+    let b1 = GenerationSource::Arbitrary(&mut u1).gen_bool();
+    assert!(b0 != b1, "[C12] the FRAME coin flip is stuck");
+}
